@@ -1,8 +1,8 @@
-\* Project.tla, intended design (Dev = {}): every C19 / C18 / C17 property is checked by TLC.
-\* 3 resolver fields (Query.f1, Query.f2, T.g) x 2 schema files x 2 body tokens (b1 / b2c, written together
-\* with doc d1 + named results / template doc + unnamed) x 2 helper tokens x 2 import tokens x both resolver
-\* layouts x histories <= 6.
-\* Measured (4 workers): see notes/C19.md (header is updated from the measured run).
+\* Project.tla, INTENDED DESIGN (Dev = {}): every C19 / C18 / C17 property is checked by TLC.
+\* Constants: 3 resolver fields (Query.f1, Query.f2, T.g) x 2 schema files x 2 edit records (body b1 + doc d1 +
+\* named results / body b2c (with /* */) + template doc) x 2 helper tokens x 2 import tokens (alias, dot) x both
+\* resolver layouts x histories <= 6, start = freshly generated empty project.
+\* Measured: 197 188 distinct / 486 181 generated states, depth 7, 26-40 s with 3-4 workers. -coverage 1: no action 0.
 INIT Init
 NEXT Next
 CONSTANTS
